@@ -5,6 +5,7 @@ V = os.path.dirname(os.path.dirname(os.path.abspath(__file__)))
 GO = "/root/go/pkg/mod/golang.org/toolchain@v0.0.1-go1.25.0.linux-amd64/bin/go"
 TECH = "deterministic simulation with fault injection: "
 checks = {
+ "C10": ("exploration", "seeded search over party counts, circuits (generated and compiled for the GMW target), inputs, harness triple requests, start delays, dial latencies, transports and every interleaving of the main, accept, triple-producer and writer tasks; oracle = truth-table evaluation and the triple relation bit for bit", "5 C10", "trusts the simulated TCP, sync and channel models; real Chou-Orlandi base OTs (constructed by the code under test)", TECH + "seeded multi-party sessions over simulated TCP, truth-table and triple-relation oracles"),
  "C05": ("exploration", "seeded search over corpus and generated MPCL programs (aliasing chains, array updates, unsized arguments, >65535 wires), inputs, OT kinds, transports and schedules of real streaming sessions; differential oracle against the whole compiled circuit evaluated by the harness truth-table evaluator", "5 C05", "trusts simulator models + overlay rewriter; the reference is the repository's own whole-circuit compilation of the same source; programs that do not compile are discarded", TECH + "seeded streaming sessions over simulated transport, differential oracle against whole-circuit evaluation"),
  "C02": ("exploration", "seeded search over circuits, inputs, OT implementations, pipe capacities, read fragmentations and task schedules of real Garbler/Evaluator sessions; oracle = harness truth-table evaluator; sampled, not exhaustive", "5 C02", "trusts simulator models + overlay rewriter; fault-free transport (the property's domain)", TECH + "seeded schedule/fragmentation search of two-party sessions against a truth-table reference"),
  "C06": ("exploration", "seeded search over every OT implementation, batch sizes across all internal boundaries, repeated batches, shared instances, transports and schedules; oracle = exact label/bit equality", "5 C06", "trusts simulator models + overlay rewriter; IKNP base OTs are a stub in most runs (real Chou-Orlandi in a share)", TECH + "seeded sender/receiver sessions over simulated transport, exact-equality oracle"),
